@@ -6,6 +6,9 @@ CONSTANTS
   Vias <- ViasAll
   MaxInject = 1
   Spoof = FALSE
+  Confs <- ConfsAll
+  Stores <- StoresAll
+  Ancs <- AncsTs
   RestoreAtTop = TRUE
-CONSTRAINTS GenDeep GenStop
-INVARIANTS Emit
+CONSTRAINTS GenDeepAll GenStop
+INVARIANTS EmitDeep
